@@ -4,5 +4,578 @@ From SV Require Import Common.Tok C20.Gen C20.Model.
 Import ListNotations.
 Open Scope Z_scope.
 
+(** * Token equality *)
+
+Lemma bytes_eqb_eq : forall a b, bytes_eqb a b = true <-> a = b.
+Proof.
+  induction a as [|x a IH]; destruct b as [|y b]; cbn [bytes_eqb]; split; intros H; try reflexivity; try discriminate.
+  - apply andb_true_iff in H as [H1 H2]. apply N.eqb_eq in H1. apply IH in H2. now subst.
+  - inversion H; subst. apply andb_true_iff; split; [apply N.eqb_refl | now apply IH].
+Qed.
+
+Lemma tok_eqb_eq : forall a b, tok_eqb a b = true <-> a = b.
+Proof.
+  intros [x|x|x] [y|y|y]; cbn [tok_eqb]; split; intros H; try discriminate.
+  - apply Z.eqb_eq in H; now subst.
+  - inversion H; apply Z.eqb_refl.
+  - apply bytes_eqb_eq in H; now subst.
+  - inversion H; now apply bytes_eqb_eq.
+  - apply String.eqb_eq in H; now subst.
+  - inversion H; apply String.eqb_refl.
+Qed.
+
+Lemma toks_eqb_eq : forall a b, toks_eqb a b = true <-> a = b.
+Proof.
+  induction a as [|x a IH]; destruct b as [|y b]; cbn [toks_eqb]; split; intros H; try reflexivity; try discriminate.
+  - apply andb_true_iff in H as [H1 H2]. apply tok_eqb_eq in H1. apply IH in H2. now subst.
+  - inversion H; subst. apply andb_true_iff; split; [now apply tok_eqb_eq | now apply IH].
+Qed.
+
+Lemma toks_eqb_refl : forall a, toks_eqb a a = true.
+Proof. intros; now apply toks_eqb_eq. Qed.
+
+Lemma toks_eqb_neq : forall a b, a <> b -> toks_eqb a b = false.
+Proof. intros a b H. destruct (toks_eqb a b) eqn:E; [apply toks_eqb_eq in E; contradiction | reflexivity]. Qed.
+
+Section Keyed.
+  Context {A : Type} (key : A -> list tok).
+
+  Lemma has_true : forall k l, has key k l = true <-> In k (map key l).
+  Proof.
+    intros k l; unfold has. rewrite existsb_exists. split.
+    - intros [y [Hy E]]. apply toks_eqb_eq in E. subst. now apply in_map.
+    - intros H. apply in_map_iff in H as [y [E Hy]]. exists y; split; [assumption|]. subst; apply toks_eqb_refl.
+  Qed.
+
+  Lemma has_false : forall k l, ~ In k (map key l) -> has key k l = false.
+  Proof. intros k l H. destruct (has key k l) eqn:E; [apply has_true in E; contradiction | reflexivity]. Qed.
+
+  Lemma add_new_fresh : forall x l, ~ In (key x) (map key l) -> add_new key x l = (l ++ [x], DOk).
+  Proof. intros x l H; unfold add_new; now rewrite has_false. Qed.
+
+  Lemma add_new_present : forall x l, In (key x) (map key l) -> add_new key x l = (l, DExists).
+  Proof. intros x l H; unfold add_new. apply has_true in H. now rewrite H. Qed.
+
+  Lemma upsert_fresh : forall x l, ~ In (key x) (map key l) -> upsert key x l = (l ++ [x], DOk).
+  Proof. intros x l H; unfold upsert; now rewrite has_false. Qed.
+
+  Lemma replace_key_absent : forall x l, ~ In (key x) (map key l) -> replace_key key x l = l.
+  Proof.
+    intros x l; induction l as [|y l IH]; intros H; cbn [replace_key map]; [reflexivity|].
+    cbn [map In] in H. rewrite toks_eqb_neq by (intros E; apply H; left; exact E).
+    f_equal. apply IH. intros Hi; apply H; right; exact Hi.
+  Qed.
+
+  (** upserting an element that is already stored, keys being unique, changes nothing *)
+  Lemma replace_key_same : forall x l, In x l -> NoDup (map key l) -> replace_key key x l = l.
+  Proof.
+    intros x l; induction l as [|y l IH]; intros Hin Hnd; [reflexivity|].
+    cbn [replace_key map] in *. inversion Hnd as [|k ks Hk Hnd']; subst.
+    destruct Hin as [E|Hin].
+    - subst y. rewrite toks_eqb_refl. f_equal. apply replace_key_absent. exact Hk.
+    - destruct (toks_eqb (key y) (key x)) eqn:E.
+      + apply toks_eqb_eq in E. exfalso. apply Hk. rewrite E. now apply in_map.
+      + f_equal. now apply IH.
+  Qed.
+
+  Lemma upsert_same : forall x l, In x l -> NoDup (map key l) -> upsert key x l = (l, DOk).
+  Proof.
+    intros x l Hin Hnd. unfold upsert.
+    assert (H : has key (key x) l = true) by (apply has_true; now apply in_map).
+    rewrite H. now rewrite replace_key_same.
+  Qed.
+
+  Lemma add_skip_res : forall x l, snd (add_skip key x l) = DOk.
+  Proof. intros; unfold add_skip; now destruct (has key (key x) l). Qed.
+
+  Lemma add_skip_present : forall x l, In (key x) (map key l) -> add_skip key x l = (l, DOk).
+  Proof. intros x l H; unfold add_skip. apply has_true in H. now rewrite H. Qed.
+
+  Lemma add_skip_in : forall x l y, In y (fst (add_skip key x l)) <-> In y l \/ (y = x /\ ~ In (key x) (map key l)).
+  Proof.
+    intros x l y. unfold add_skip. destruct (has key (key x) l) eqn:E; cbn [fst].
+    - apply has_true in E. split.
+      + intros H; now left.
+      + intros [H|[_ H]]; [assumption|contradiction].
+    - assert (Hn : ~ In (key x) (map key l)) by (intros Hi; apply has_true in Hi; congruence).
+      rewrite in_app_iff. cbn [In]. split.
+      + intros [H|[H|[]]]; [now left|]. right. split; [now subst|exact Hn].
+      + intros [H|[H _]]; [now left|]. right; left; now subst.
+  Qed.
+
+  Lemma add_skip_nodup : forall x l, NoDup (map key l) -> NoDup (map key (fst (add_skip key x l))).
+  Proof.
+    intros x l H. unfold add_skip. destruct (has key (key x) l) eqn:E; cbn [fst]; [assumption|].
+    rewrite map_app. cbn [map].
+    assert (Hn : ~ In (key x) (map key l)) by (intros Hi; apply has_true in Hi; congruence).
+    clear E. induction (map key l) as [|k ks IH]; cbn [app].
+    - constructor; [intros []|constructor].
+    - inversion H; subst. constructor.
+      + rewrite in_app_iff. cbn [In]. intros [Hi|[Hi|[]]]; [contradiction|]. apply Hn. left. now subst.
+      + apply IH; [assumption|]. intros Hi. apply Hn. now right.
+  Qed.
+End Keyed.
+
+(** * NoDup on appended lists *)
+
+Lemma NoDup_app_l : forall {A} (a b : list A), NoDup (a ++ b) -> NoDup a.
+Proof.
+  intros A a b; induction a as [|x a IH]; intros H; [constructor|].
+  cbn [app] in H. inversion H; subst. constructor; [|now apply IH].
+  intros Hi. apply H2. apply in_or_app. now left.
+Qed.
+
+Lemma NoDup_app_r : forall {A} (a b : list A), NoDup (a ++ b) -> NoDup b.
+Proof.
+  intros A a b; induction a as [|x a IH]; intros H; [exact H|].
+  cbn [app] in H. inversion H; subst. now apply IH.
+Qed.
+
+Lemma NoDup_app_notin : forall {A} (a b : list A) x, NoDup (a ++ x :: b) -> ~ In x a.
+Proof. intros A a b x H Hi. apply NoDup_remove_2 in H. apply H. apply in_or_app. now left. Qed.
+
+Lemma NoDup_snoc_prefix : forall {A} (a b : list A) x, NoDup (a ++ x :: b) -> NoDup ((a ++ [x]) ++ b).
+Proof. intros. now rewrite <- app_assoc. Qed.
+
+Fixpoint nodup_keys (l : list (list tok)) : bool :=
+  match l with
+  | [] => true
+  | k :: l' => negb (existsb (toks_eqb k) l') && nodup_keys l'
+  end.
+
+Lemma nodup_keys_NoDup : forall l, nodup_keys l = true -> NoDup l.
+Proof.
+  induction l as [|k l IH]; intros H; [constructor|].
+  cbn [nodup_keys] in H. apply andb_true_iff in H as [H1 H2]. constructor; [|now apply IH].
+  intros Hi. apply negb_true_iff in H1.
+  assert (E : existsb (toks_eqb k) l = true) by (apply existsb_exists; exists k; split; [assumption|apply toks_eqb_refl]).
+  congruence.
+Qed.
+
+Lemma NoDup_nodup_keys : forall l, NoDup l -> nodup_keys l = true.
+Proof.
+  induction l as [|k l IH]; intros H; [reflexivity|].
+  inversion H; subst. cbn [nodup_keys]. apply andb_true_iff; split; [|now apply IH].
+  apply negb_true_iff. destruct (existsb (toks_eqb k) l) eqn:E; [|reflexivity].
+  apply existsb_exists in E as [y [Hy E]]. apply toks_eqb_eq in E. subst. contradiction.
+Qed.
+
+(** * Numbering *)
+
 Lemma number_from_length : forall M rs c, List.length (number_from M c rs) = List.length rs.
 Proof. intros M rs; induction rs as [|r rs IH]; intros c; cbn [number_from List.length]; [reflexivity|now rewrite IH]. Qed.
+
+Lemma number_from_snd : forall M rs c, map snd (number_from M c rs) = rs.
+Proof. intros M rs; induction rs as [|r rs IH]; intros c; cbn [number_from map snd]; [reflexivity|now rewrite IH]. Qed.
+
+Lemma number_from_ids : forall M rs c, 0 < M -> 0 <= c < M ->
+  map fst (number_from M c rs) = map (fun i => (c + Z.of_nat i) mod M) (seq 0 (List.length rs)).
+Proof.
+  intros M rs; induction rs as [|r rs IH]; intros c HM Hc; [reflexivity|].
+  cbn [number_from map fst List.length seq]. f_equal.
+  - rewrite Z.add_0_r. symmetry. now apply Z.mod_small.
+  - rewrite IH by (try assumption; apply Z.mod_pos_bound; assumption).
+    rewrite <- seq_shift, map_map. apply map_ext. intros i.
+    rewrite Zplus_mod_idemp_l. f_equal. lia.
+Qed.
+
+Lemma ids_closed_form : forall M rs, 0 < M ->
+  map fst (number M rs) = map (fun i => Z.of_nat i mod M) (seq 0 (List.length rs)).
+Proof. intros M rs HM. unfold number. rewrite number_from_ids by lia. apply map_ext. intros i. now rewrite Z.add_0_l. Qed.
+
+Lemma ids_in_range : forall M rs x, 0 < M -> In x (map fst (number M rs)) -> 0 <= x < M.
+Proof.
+  intros M rs x HM H. rewrite ids_closed_form in H by assumption. apply in_map_iff in H as [i [E _]].
+  subst. now apply Z.mod_pos_bound.
+Qed.
+
+Lemma ids_unique_upto_lemma : forall M rs, 0 < M -> Z.of_nat (List.length rs) <= M -> NoDup (map fst (number M rs)).
+Proof.
+  intros M rs HM Hn. rewrite ids_closed_form by assumption.
+  assert (E : map (fun i => Z.of_nat i mod M) (seq 0 (List.length rs)) = map Z.of_nat (seq 0 (List.length rs))).
+  { apply map_ext_in. intros i Hi. apply in_seq in Hi. apply Z.mod_small. lia. }
+  rewrite E. apply FinFun.Injective_map_NoDup; [|apply seq_NoDup]. intros a b Hab. now apply Nat2Z.inj.
+Qed.
+
+Lemma ids_collide_beyond_lemma : forall M rs, 0 < M -> M < Z.of_nat (List.length rs) -> ~ NoDup (map fst (number M rs)).
+Proof.
+  intros M rs HM Hn Hnd.
+  pose (range := map Z.of_nat (seq 0 (Z.to_nat M))).
+  assert (Hincl : incl (map fst (number M rs)) range).
+  { intros x Hx. apply ids_in_range in Hx; [|assumption]. unfold range. apply in_map_iff.
+    exists (Z.to_nat x). split; [lia|]. apply in_seq. lia. }
+  apply NoDup_incl_length in Hincl; [|assumption].
+  unfold range in Hincl. rewrite !map_length, seq_length in Hincl. unfold number in Hincl.
+  rewrite number_from_length in Hincl. lia.
+Qed.
+
+(** * apply_all *)
+
+Lemma apply_all_app : forall a b s,
+  apply_all (a ++ b) s =
+  let '(s1, d1) := apply_all a s in let '(s2, d2) := apply_all b s1 in (s2, d1 ++ d2).
+Proof.
+  induction a as [|r a IH]; intros b s; cbn [apply_all app].
+  - now destruct (apply_all b s).
+  - destruct (dispatch s r) as [s1 d]. rewrite IH.
+    destruct (apply_all a s1) as [s2 ds]. destruct (apply_all b s2) as [s3 ds']. reflexivity.
+Qed.
+
+Definition set_l (s : state) x := mk_state x (s_clusters s) (s_fronts s) (s_tfronts s) (s_backends s) (s_certs s).
+Definition set_c (s : state) x := mk_state (s_listeners s) x (s_fronts s) (s_tfronts s) (s_backends s) (s_certs s).
+Definition set_f (s : state) x := mk_state (s_listeners s) (s_clusters s) x (s_tfronts s) (s_backends s) (s_certs s).
+Definition set_t (s : state) x := mk_state (s_listeners s) (s_clusters s) (s_fronts s) x (s_backends s) (s_certs s).
+Definition set_b (s : state) x := mk_state (s_listeners s) (s_clusters s) (s_fronts s) (s_tfronts s) x (s_certs s).
+Definition set_k (s : state) x := mk_state (s_listeners s) (s_clusters s) (s_fronts s) (s_tfronts s) (s_backends s) x.
+
+(** ** phase 1: listeners *)
+Lemma listeners_phase : forall ls s,
+  NoDup (map lkey (s_listeners s ++ ls)) ->
+  apply_all (map RAddListener ls) s = (set_l s (s_listeners s ++ ls), repeat DOk (List.length ls)).
+Proof.
+  induction ls as [|l ls IH]; intros s H.
+  - cbn. rewrite app_nil_r. now destruct s.
+  - cbn [map apply_all dispatch]. rewrite map_app in H. cbn [map] in H.
+    rewrite add_new_fresh by (eapply NoDup_app_notin; exact H).
+    cbv beta iota. rewrite IH.
+    + cbn [set_l s_listeners s_clusters s_fronts s_tfronts s_backends s_certs List.length repeat].
+      now rewrite <- app_assoc.
+    + cbn [set_l s_listeners]. rewrite <- app_assoc. cbn [app]. rewrite map_app. exact H.
+Qed.
+
+(** ** HTTP(S) frontends with their certificates *)
+Definition certs_step (c : list (bytes * Z)) (x : front * Z) : list (bytes * Z) :=
+  if f_https (fst x) then fst (add_skip certkey (f_addr (fst x), snd x) c) else c.
+Definition certs_fold (hfs : list (front * Z)) (c0 : list (bytes * Z)) := fold_left certs_step hfs c0.
+
+Lemma hfronts_phase : forall hfs s,
+  NoDup (map fkey (s_fronts s ++ map fst hfs)) ->
+  apply_all (flat_map front_requests hfs) s =
+  (set_k (set_f s (s_fronts s ++ map fst hfs)) (certs_fold hfs (s_certs s)),
+   repeat DOk (List.length (flat_map front_requests hfs))).
+Proof.
+  induction hfs as [|[f cert] hfs IH]; intros s H.
+  - cbn. rewrite app_nil_r. now destruct s.
+  - cbn [flat_map front_requests map fst] in *. rewrite map_app in H. cbn [map] in H.
+    assert (Hf : ~ In (fkey f) (map fkey (s_fronts s))) by (eapply NoDup_app_notin; exact H).
+    destruct (f_https f) eqn:Eh.
+    + cbn [app apply_all dispatch].
+      destruct (add_skip certkey (f_addr f, cert) (s_certs s)) as [ks dk] eqn:Ek.
+      assert (dk = DOk) by (pose proof (add_skip_res certkey (f_addr f, cert) (s_certs s)) as R; rewrite Ek in R; exact R).
+      subst dk. cbn [s_fronts]. rewrite add_new_fresh by exact Hf.
+      rewrite IH.
+      * cbn [set_k set_f s_listeners s_clusters s_fronts s_tfronts s_backends s_certs List.length repeat certs_fold fold_left].
+        unfold certs_step at 2. cbn [fst snd]. rewrite Eh, Ek. cbn [fst].
+        rewrite <- app_assoc. reflexivity.
+      * cbn [s_fronts]. rewrite <- app_assoc. cbn [app]. rewrite map_app. exact H.
+    + cbn [app apply_all dispatch]. rewrite add_new_fresh by exact Hf.
+      rewrite IH.
+      * cbn [set_k set_f s_listeners s_clusters s_fronts s_tfronts s_backends s_certs List.length repeat certs_fold fold_left].
+        unfold certs_step at 2. cbn [fst snd]. rewrite Eh.
+        rewrite <- app_assoc. reflexivity.
+      * cbn [s_fronts]. rewrite <- app_assoc. cbn [app]. rewrite map_app. exact H.
+Qed.
+
+(** ** TCP/UDP frontends *)
+Lemma tfronts_phase : forall ts s,
+  NoDup (map tkey (s_tfronts s ++ ts)) ->
+  apply_all (map RAddTFront ts) s = (set_t s (s_tfronts s ++ ts), repeat DOk (List.length ts)).
+Proof.
+  induction ts as [|t ts IH]; intros s H.
+  - cbn. rewrite app_nil_r. now destruct s.
+  - cbn [map apply_all dispatch]. rewrite map_app in H. cbn [map] in H.
+    rewrite add_new_fresh by (eapply NoDup_app_notin; exact H).
+    cbv beta iota. rewrite IH.
+    + cbn [set_t s_listeners s_clusters s_fronts s_tfronts s_backends s_certs List.length repeat].
+      now rewrite <- app_assoc.
+    + cbn [set_t s_tfronts]. rewrite <- app_assoc. cbn [app]. rewrite map_app. exact H.
+Qed.
+
+(** ** backends *)
+Lemma backends_phase : forall bs s,
+  NoDup (map bkey (s_backends s ++ bs)) ->
+  apply_all (map RAddBackend bs) s = (set_b s (s_backends s ++ bs), repeat DOk (List.length bs)).
+Proof.
+  induction bs as [|b bs IH]; intros s H.
+  - cbn. rewrite app_nil_r. now destruct s.
+  - cbn [map apply_all dispatch]. rewrite map_app in H. cbn [map] in H.
+    rewrite upsert_fresh by (eapply NoDup_app_notin; exact H).
+    cbv beta iota. rewrite IH.
+    + cbn [set_b s_listeners s_clusters s_fronts s_tfronts s_backends s_certs List.length repeat].
+      now rewrite <- app_assoc.
+    + cbn [set_b s_backends]. rewrite <- app_assoc. cbn [app]. rewrite map_app. exact H.
+Qed.
+
+(** ** phase 2: the clusters, in any order *)
+Definition plus_clusters (s : state) (order : list ccfg) : state :=
+  mk_state (s_listeners s)
+           (s_clusters s ++ map cc_clu order)
+           (s_fronts s ++ map fst (flat_map cc_hfronts order))
+           (s_tfronts s ++ flat_map cc_tfronts order)
+           (s_backends s ++ flat_map cc_backs order)
+           (certs_fold (flat_map cc_hfronts order) (s_certs s)).
+
+Definition fresh_for (s : state) (order : list ccfg) : Prop :=
+  NoDup (map ckey (s_clusters s ++ map cc_clu order))
+  /\ NoDup (map fkey (s_fronts s ++ map fst (flat_map cc_hfronts order)))
+  /\ NoDup (map tkey (s_tfronts s ++ flat_map cc_tfronts order))
+  /\ NoDup (map bkey (s_backends s ++ flat_map cc_backs order))
+  /\ Forall (fun c => hc_valid (cc_clu c) = true) order.
+
+Lemma cluster_requests_length : forall c,
+  List.length (cluster_requests c) =
+  S (List.length (flat_map front_requests (cc_hfronts c)) + List.length (cc_tfronts c) + List.length (cc_backs c)).
+Proof. intros c. unfold cluster_requests. cbn [List.length]. rewrite !app_length, !map_length. lia. Qed.
+
+Lemma clusters_phase : forall order s,
+  fresh_for s order ->
+  apply_all (flat_map cluster_requests order) s =
+  (plus_clusters s order, repeat DOk (List.length (flat_map cluster_requests order))).
+Proof.
+  induction order as [|c order IH]; intros s H.
+  - cbn. unfold plus_clusters. cbn. rewrite !app_nil_r. now destruct s.
+  - destruct H as (Hc & Hf & Ht & Hb & Hv).
+    cbn [flat_map map] in *. inversion Hv as [|? ? Hv1 Hv2]; subst.
+    rewrite apply_all_app.
+    (* the cluster's own requests *)
+    unfold cluster_requests at 1. cbn [apply_all dispatch]. rewrite Hv1.
+    rewrite map_app in Hc. cbn [map] in Hc.
+    rewrite upsert_fresh by (eapply NoDup_app_notin; exact Hc).
+    cbv beta iota. rewrite apply_all_app.
+    rewrite map_app in Hf. rewrite (map_app fst) in Hf. rewrite map_app in Hf.
+    rewrite hfronts_phase.
+    2:{ cbn [s_fronts]. rewrite map_app. rewrite app_assoc in Hf. eapply NoDup_app_l. exact Hf. }
+    cbv beta iota.
+    rewrite map_app in Ht. rewrite map_app in Ht.
+    rewrite apply_all_app. rewrite tfronts_phase.
+    2:{ cbn [set_k set_f s_tfronts]. rewrite map_app. rewrite app_assoc in Ht. eapply NoDup_app_l. exact Ht. }
+    cbv beta iota.
+    rewrite map_app in Hb. rewrite map_app in Hb.
+    rewrite backends_phase.
+    2:{ cbn [set_t set_k set_f s_backends]. rewrite map_app. rewrite app_assoc in Hb. eapply NoDup_app_l. exact Hb. }
+    cbv beta iota.
+    rewrite IH.
+    + unfold plus_clusters. cbn [set_b set_t set_k set_f s_listeners s_clusters s_fronts s_tfronts s_backends s_certs flat_map map].
+      f_equal.
+      * f_equal; try (rewrite <- app_assoc; reflexivity).
+        -- rewrite (map_app fst). rewrite <- app_assoc. reflexivity.
+        -- unfold certs_fold. now rewrite fold_left_app.
+      * rewrite app_length, repeat_app. f_equal.
+        unfold cluster_requests. cbn [List.length repeat]. f_equal.
+        rewrite !app_length, !map_length, !repeat_app. reflexivity.
+    + unfold fresh_for. cbn [set_b set_t set_k set_f s_listeners s_clusters s_fronts s_tfronts s_backends s_certs].
+      repeat split.
+      * rewrite <- app_assoc. cbn [app]. rewrite map_app. cbn [map]. exact Hc.
+      * rewrite <- app_assoc. rewrite !map_app. exact Hf.
+      * rewrite <- app_assoc. rewrite !map_app. exact Ht.
+      * rewrite <- app_assoc. rewrite !map_app. exact Hb.
+      * exact Hv2.
+Qed.
+
+(** ** phase 3: activation *)
+Lemma lkey_set_active : forall l, lkey (set_active l) = lkey l.
+Proof. reflexivity. Qed.
+
+Lemma activate_map_absent : forall k xs, ~ In k (map lkey xs) ->
+  map (fun y => if toks_eqb (lkey y) k then set_active y else y) xs = xs.
+Proof.
+  intros k xs; induction xs as [|y xs IH]; intros H; [reflexivity|].
+  cbn [map In] in *. rewrite toks_eqb_neq by (intros E; apply H; now left). f_equal. apply IH. intros Hi; apply H; now right.
+Qed.
+
+Lemma map_lkey_set_active : forall xs, map lkey (map set_active xs) = map lkey xs.
+Proof. intros xs. rewrite map_map. apply map_ext. intros; apply lkey_set_active. Qed.
+
+Lemma activate_phase : forall post pre s,
+  s_listeners s = map set_active pre ++ post ->
+  NoDup (map lkey (pre ++ post)) ->
+  apply_all (map (fun l => RActivate (l_kind l) (l_addr l)) post) s =
+  (set_l s (map set_active (pre ++ post)), repeat DOk (List.length post)).
+Proof.
+  induction post as [|l post IH]; intros pre s Hs Hnd.
+  - cbn. rewrite app_nil_r in *. rewrite <- Hs. now destruct s.
+  - cbn [map apply_all dispatch]. rewrite Hs.
+    assert (Hnot : ~ In (lkey l) (map lkey pre ++ map lkey post)).
+    { rewrite map_app in Hnd. cbn [map] in Hnd. apply NoDup_remove_2 in Hnd. exact Hnd. }
+    unfold activate.
+    assert (Hhas : has lkey (lkey_of (l_kind l) (l_addr l)) (map set_active pre ++ l :: post) = true).
+    { apply has_true. rewrite map_app. cbn [map]. apply in_or_app. right. left. reflexivity. }
+    rewrite Hhas.
+    rewrite map_app. cbn [map]. change (lkey_of (l_kind l) (l_addr l)) with (lkey l).
+    rewrite toks_eqb_refl.
+    rewrite activate_map_absent
+      by (rewrite map_lkey_set_active; intros Hi; apply Hnot; apply in_or_app; now left).
+    rewrite activate_map_absent by (intros Hi; apply Hnot; apply in_or_app; now right).
+    rewrite (IH (pre ++ [l])).
+    + cbn [set_l s_listeners s_clusters s_fronts s_tfronts s_backends s_certs List.length repeat].
+      rewrite <- app_assoc. reflexivity.
+    + cbn [s_listeners]. rewrite map_app. cbn [map]. rewrite <- app_assoc. reflexivity.
+    + rewrite <- app_assoc. exact Hnd.
+Qed.
+
+(** ** the whole message list on a fresh state *)
+Definition final_listeners (cf : config) : list lst :=
+  if cf_activate cf then map set_active (all_listeners cf) else all_listeners cf.
+
+Definition final_state (cf : config) (order : list ccfg) : state :=
+  mk_state (final_listeners cf) (map cc_clu order) (map fst (flat_map cc_hfronts order))
+           (flat_map cc_tfronts order) (flat_map cc_backs order) (certs_fold (flat_map cc_hfronts order) []).
+
+Definition KeysOk (cf : config) (order : list ccfg) : Prop :=
+  NoDup (map lkey (all_listeners cf))
+  /\ NoDup (map ckey (map cc_clu order))
+  /\ NoDup (map fkey (map fst (flat_map cc_hfronts order)))
+  /\ NoDup (map tkey (flat_map cc_tfronts order))
+  /\ NoDup (map bkey (flat_map cc_backs order))
+  /\ Forall (fun c => hc_valid (cc_clu c) = true) order.
+
+Definition keys_ok (cf : config) (order : list ccfg) : bool :=
+  nodup_keys (map lkey (all_listeners cf))
+  && nodup_keys (map ckey (map cc_clu order))
+  && nodup_keys (map fkey (map fst (flat_map cc_hfronts order)))
+  && nodup_keys (map tkey (flat_map cc_tfronts order))
+  && nodup_keys (map bkey (flat_map cc_backs order))
+  && forallb (fun c => hc_valid (cc_clu c)) order.
+
+Lemma keys_ok_KeysOk : forall cf order, keys_ok cf order = true -> KeysOk cf order.
+Proof.
+  intros cf order H. unfold keys_ok in H. repeat (apply andb_true_iff in H as [H ?]).
+  repeat split; try (apply nodup_keys_NoDup; assumption).
+  apply Forall_forall. intros c Hc. eapply forallb_forall in H0; eauto.
+Qed.
+
+Lemma KeysOk_perm : forall cf o1 o2, Permutation o1 o2 -> KeysOk cf o1 -> KeysOk cf o2.
+Proof.
+  intros cf o1 o2 P (H1 & H2 & H3 & H4 & H5 & H6). repeat split.
+  - exact H1.
+  - eapply Permutation_NoDup; [|exact H2]. do 2 apply Permutation_map. exact P.
+  - eapply Permutation_NoDup; [|exact H3]. do 2 apply Permutation_map. now apply Permutation_flat_map.
+  - eapply Permutation_NoDup; [|exact H4]. apply Permutation_map. now apply Permutation_flat_map.
+  - eapply Permutation_NoDup; [|exact H5]. apply Permutation_map. now apply Permutation_flat_map.
+  - eapply Permutation_Forall; eauto.
+Qed.
+
+Lemma apply_fresh : forall cf order,
+  KeysOk cf order ->
+  apply_all (config_requests cf order) empty_state =
+  (final_state cf order, repeat DOk (List.length (config_requests cf order))).
+Proof.
+  intros cf order (Hl & Hc & Hf & Ht & Hb & Hv).
+  unfold config_requests. rewrite apply_all_app.
+  rewrite listeners_phase by exact Hl. cbv beta iota. rewrite apply_all_app.
+  rewrite clusters_phase.
+  2:{ unfold fresh_for, set_l. cbn [empty_state s_listeners s_clusters s_fronts s_tfronts s_backends s_certs app].
+      repeat split; assumption. }
+  cbv beta iota. rewrite apply_all_app.
+  unfold plus_clusters, set_l. cbn [s_listeners s_clusters s_fronts s_tfronts s_backends s_certs app empty_state].
+  destruct (cf_activate cf) eqn:Ea.
+  - rewrite (activate_phase (all_listeners cf) []); [| reflexivity | exact Hl].
+    cbv beta iota.
+    cbn [set_l s_listeners s_clusters s_fronts s_tfronts s_backends s_certs app].
+    unfold final_state, final_listeners. rewrite Ea.
+    destruct (cf_metrics cf); cbn [apply_all dispatch].
+    + f_equal. rewrite !app_length, !map_length. cbn [List.length]. rewrite !repeat_app. reflexivity.
+    + f_equal. rewrite !app_length, !map_length. cbn [List.length]. rewrite !repeat_app. rewrite !app_nil_r. reflexivity.
+  - cbn [apply_all]. unfold final_state, final_listeners. rewrite Ea.
+    destruct (cf_metrics cf); cbn [apply_all dispatch].
+    + f_equal. rewrite !app_length, !map_length. cbn [List.length]. rewrite !repeat_app. reflexivity.
+    + f_equal. rewrite !app_length, !map_length. cbn [List.length]. rewrite !repeat_app. rewrite !app_nil_r. reflexivity.
+Qed.
+
+(** * Reload: every generated request is absorbed by the state the file produced *)
+
+Lemma apply_all_absorbed : forall rs s,
+  (forall r, In r rs -> fst (dispatch s r) = s) -> fst (apply_all rs s) = s.
+Proof.
+  induction rs as [|r rs IH]; intros s H; [reflexivity|].
+  cbn [apply_all]. pose proof (H r (or_introl eq_refl)) as Hr.
+  destruct (dispatch s r) as [s1 d] eqn:E. cbn [fst] in Hr. subst s1.
+  specialize (IH s (fun r' Hr' => H r' (or_intror Hr'))).
+  destruct (apply_all rs s) as [s2 ds]. exact IH.
+Qed.
+
+Lemma certs_step_mono : forall c y k, In k (map certkey c) -> In k (map certkey (certs_step c y)).
+Proof.
+  intros c y k H. unfold certs_step. destruct (f_https (fst y)); [|exact H].
+  apply in_map_iff in H as [z [E Hz]]. apply in_map_iff. exists z. split; [exact E|].
+  apply add_skip_in. now left.
+Qed.
+
+Lemma certs_fold_mono : forall hfs c k, In k (map certkey c) -> In k (map certkey (certs_fold hfs c)).
+Proof.
+  induction hfs as [|y hfs IH]; intros c k H; [exact H|].
+  cbn [certs_fold fold_left]. apply IH. now apply certs_step_mono.
+Qed.
+
+Lemma certs_fold_has : forall hfs c x, In x hfs -> f_https (fst x) = true ->
+  In (certkey (f_addr (fst x), snd x)) (map certkey (certs_fold hfs c)).
+Proof.
+  induction hfs as [|y hfs IH]; intros c x Hin Hh; [destruct Hin|].
+  cbn [certs_fold fold_left]. destruct Hin as [E|Hin].
+  - subst y. apply certs_fold_mono. unfold certs_step. rewrite Hh.
+    destruct (has certkey (certkey (f_addr (fst x), snd x)) c) eqn:Eh.
+    1: apply has_true in Eh; rename Eh into Hp.
+    2: assert (Hn : ~ In (certkey (f_addr (fst x), snd x)) (map certkey c)) by (intros Hi; apply has_true in Hi; congruence).
+    + rewrite add_skip_present by exact Hp. exact Hp.
+    + apply in_map_iff. exists (f_addr (fst x), snd x). split; [reflexivity|].
+      apply add_skip_in. right. split; [reflexivity|exact Hn].
+  - now apply IH.
+Qed.
+
+Lemma certs_fold_nodup : forall hfs c, NoDup (map certkey c) -> NoDup (map certkey (certs_fold hfs c)).
+Proof.
+  induction hfs as [|y hfs IH]; intros c H; [exact H|].
+  cbn [certs_fold fold_left]. apply IH. unfold certs_step. destruct (f_https (fst y)); [|exact H].
+  now apply add_skip_nodup.
+Qed.
+
+Lemma set_active_idem_map : forall k xs,
+  map (fun y => if toks_eqb (lkey y) k then set_active y else y) (map set_active xs) = map set_active xs.
+Proof.
+  intros k xs. rewrite map_map. apply map_ext. intros y. now destruct (toks_eqb (lkey (set_active y)) k).
+Qed.
+
+Lemma final_listener_keys : forall cf, map lkey (final_listeners cf) = map lkey (all_listeners cf).
+Proof. intros cf. unfold final_listeners. destruct (cf_activate cf); [apply map_lkey_set_active|reflexivity]. Qed.
+
+Lemma reload_absorbed : forall cf order order2,
+  KeysOk cf order -> Permutation order2 order ->
+  fst (apply_all (config_requests cf order2) (final_state cf order)) = final_state cf order.
+Proof.
+  intros cf order order2 (Hl & Hc & Hf & Ht & Hb & Hv) P.
+  apply apply_all_absorbed. intros r Hr. unfold config_requests in Hr.
+  rewrite !in_app_iff in Hr. destruct Hr as [Hr|[Hr|[Hr|Hr]]].
+  - (* AddListener: Exists *)
+    apply in_map_iff in Hr as [l [E Hin]]. subst r. cbn [dispatch final_state s_listeners].
+    rewrite add_new_present; [reflexivity|]. rewrite final_listener_keys. now apply in_map.
+  - apply in_flat_map in Hr as [c [Hc2 Hr]].
+    assert (Hco : In c order) by (eapply Permutation_in; eauto).
+    unfold cluster_requests in Hr. cbn [In] in Hr. rewrite !in_app_iff in Hr.
+    destruct Hr as [Hr|[Hr|[Hr|Hr]]].
+    + (* AddCluster: upsert of the stored value *)
+      subst r. cbn [dispatch final_state s_clusters].
+      rewrite Forall_forall in Hv. rewrite (Hv c Hco).
+      rewrite upsert_same; [reflexivity| now apply in_map | exact Hc].
+    + apply in_flat_map in Hr as [[f cert] [Hfin Hr]]. unfold front_requests in Hr.
+      assert (Hall : In (f, cert) (flat_map cc_hfronts order)) by (apply in_flat_map; eauto).
+      assert (Hfront : fst (dispatch (final_state cf order) (RAddFront f)) = final_state cf order).
+      { cbn [dispatch final_state s_fronts]. rewrite add_new_present; [reflexivity|].
+        apply in_map. apply in_map_iff. exists (f, cert). split; [reflexivity|exact Hall]. }
+      destruct (f_https f) eqn:Eh; cbn [In] in Hr.
+      * destruct Hr as [Hr|[Hr|[]]]; subst r; [|exact Hfront].
+        cbn [dispatch final_state s_certs].
+        rewrite add_skip_present; [reflexivity|].
+        apply (certs_fold_has (flat_map cc_hfronts order) [] (f, cert)); [exact Hall|exact Eh].
+      * destruct Hr as [Hr|[]]; subst r. exact Hfront.
+    + apply in_map_iff in Hr as [t [E Hin]]. subst r. cbn [dispatch final_state s_tfronts].
+      rewrite add_new_present; [reflexivity|]. apply in_map. apply in_flat_map; eauto.
+    + apply in_map_iff in Hr as [b [E Hin]]. subst r. cbn [dispatch final_state s_backends].
+      rewrite upsert_same; [reflexivity| apply in_flat_map; eauto | exact Hb].
+  - (* ActivateListener on an already active listener *)
+    unfold final_state, final_listeners. destruct (cf_activate cf); [|destruct Hr].
+    apply in_map_iff in Hr as [l [E Hin]]. subst r. cbn [dispatch s_listeners]. unfold activate.
+    assert (Hh : has lkey (lkey_of (l_kind l) (l_addr l)) (map set_active (all_listeners cf)) = true).
+    { apply has_true. rewrite map_lkey_set_active. change (lkey_of (l_kind l) (l_addr l)) with (lkey l). now apply in_map. }
+    rewrite Hh. now rewrite set_active_idem_map.
+  - destruct (cf_metrics cf); [|destruct Hr]. destruct Hr as [Hr|[]]. subst r. reflexivity.
+Qed.
